@@ -427,14 +427,99 @@ def configs(tier):
     return out
 
 
+def job_phasefield(cfg):
+    """two-field phase-field simulation with the history solver: fields AND the internal variable (history of the driving energy) after Set_Iter"""
+    from EasyFEA import Models, Simulations
+    from engine import paths
+    from engine.sym import Cond, _vid
+
+    res = JobResult(cfg)
+    c = new_context()
+    facade.install()
+    reset = cfg["resetAll"]
+    key = f"phasefield (Bourdin, solver History) Set_Iter(i, resetAll={reset})"
+    res.functions |= {"Simulations.PhaseField.Save_Iter", "Simulations.PhaseField.Set_Iter", "Simulations.PhaseField.__Calc_psiPlus_e_pg", "_Simu.Get_results"}
+    X = np.array([[0, 0, 0], [1, 0, 0], [0.25, 1, 0]], dtype=float)
+    mesh = simlib.mesh_from_arrays([("TRI3", [[0, 1, 2]]), ("SEG2", [[0, 1], [1, 2], [2, 0]])], X)
+    mat = Models.Elastic.Isotropic(2, E=210.0, v=0.25, planeStress=False)
+    pfm = Models.PhaseField(mat, "Bourdin", "AT2", Gc=1.0, l0=0.1, solver="History")
+    amps = [c.var(f"amplitude{k}", -1, 1, shadow=Fraction([3, 1, 2][k], 4)) for k in range(3)]
+    dmg = [sym_array(f"d{k}", mesh.Nn) for k in range(3)]
+    res.symbols = 3 + 3 * mesh.Nn
+    uhat = np.array([0, 0, Fraction(1, 8), 0, Fraction(-1, 16), Fraction(3, 16)], dtype=object)
+    g = mesh.groupElem
+
+    def run(A, D, symbolic, restore):
+        s = Simulations.PhaseField(mesh, pfm, verbosity=False)
+        s._PhaseField__Niter, s._PhaseField__timeIter, s._PhaseField__convIter = 0, 0.0, 0.0
+        snaps = []
+        for k in range(3):
+            u = uhat * A[k] if symbolic else np.array([float(x) for x in uhat]) * A[k]
+            s._Set_solutions(s.ProblemTypes.elastic, u)
+            s._Set_solutions(s.ProblemTypes.damage, D[k].copy())
+            s.Need_Update()
+            s.Get_K_C_M_F(s.ProblemTypes.damage)  # evaluates the driving energy with the history, as a solve does
+            s.Save_Iter()
+            hist = s._PhaseField__old_psiP_e_pg
+            hist = hist[g.elemType] if isinstance(hist, dict) else hist
+            snaps.append({"u": farr(s.displacement), "d": farr(s.damage), "H": farr(hist)})
+        s.Set_Iter(restore, resetAll=reset)
+        hist = s._PhaseField__old_psiP_e_pg
+        hist = hist[g.elemType] if isinstance(hist, dict) else hist
+        return snaps, {"u": farr(s.displacement), "d": farr(s.damage), "H": farr(hist)}
+
+    out = {}
+
+    def body(k):
+        with facade.symbolic():
+            return {i: run(amps, dmg, True, i) for i in (0, 1)}
+
+    regions, status = paths.explore(body, amps, max_regions=40, label=f"{key} coverage")
+    res.paths = len(regions)
+    if status.startswith("covered"):
+        res.held(f"{key}: {len(regions)} regions cover the load amplitudes", how="exact")
+    else:
+        res.record(f"{key}: regions cover the amplitudes", Outcome("inconclusive", how="exact", detail=status), None, key=f"{key} coverage")
+
+    def make_replay(i, f):
+        def replay(env):
+            full = {kk: float(v) for kk, v in {**c.shadow, **(env or {})}.items()}
+            A = [full[_vid(a)] for a in amps]
+            D = [np.array([float(as_sym(x).eval(full)) for x in d]) for d in dmg]
+            snaps, live = run(A, D, False, i)
+            got, want = np.asarray(live[f], dtype=float), np.asarray(snaps[i][f], dtype=float)
+            err = float(np.abs(got - want).max())
+            return err > 1e-9 * max(1.0, float(np.abs(want).max())), {"amplitudes": A, "restored_iteration": i, "field": f, "restored": got.tolist(), "saved": want.tolist()}
+        return replay
+
+    for r in regions:
+        paths.reshadow(c, r.shadow)
+        pcs = list(r.pcs) + list(c.side) + list(c.domain_conds())
+        for i in (0, 1):
+            snaps, live = r.result[i]
+            for f, name in (("u", "displacement"), ("d", "damage"), ("H", "history of the driving energy")):
+                worst = None
+                for a, b in zip(live[f], snaps[i][f]):
+                    o = prove_abs_le(as_sym(a) - as_sym(b), 0, pcs, f"{key} {name}")
+                    if o.status != "held":
+                        worst = o
+                        break
+                res.record(f"{key} region {r.index}: after Set_Iter({i}) the {name} is the one current when iteration {i} was saved", worst or Outcome("held", how="normal-form"), make_replay(i, f),
+                           key=f"phasefield Set_Iter(resetAll={reset}): {name}" + (f" [iteration saved before a later, larger load]" if False else ""))
+    res.twin(f"{key} twin", len(regions) >= 2)
+    res.stubs |= facade.USED_STUBS
+    return res
+
+
 def job(cfg):
-    return job_seq(cfg)
+    return job_phasefield(cfg) if cfg.get("kind") == "phasefield" else job_seq(cfg)
 
 
 def main():
     t0 = time.time()
     tier = harness.tier()
     cfgs = configs(tier)
+    cfgs += [{"kind": "phasefield", "resetAll": True}, {"kind": "phasefield", "resetAll": False}]
     results = harness.run_jobs(job, cfgs)
     harness.finish(
         PID, results, t0=t0,
